@@ -185,6 +185,17 @@ class IndentLogger(Logger):
                     while self._messages:
                         self._sink.write(self._messages.pop(0))
 
+    def __copy__(self) -> 'IndentLogger':
+        #a copy made in this process (e.g., by DecoratedLogger) keeps sharing the held back lines
+        new = object.__new__(type(self))
+        new.__dict__.update(self.__dict__)
+        return new
+
+    def __getstate__(self) -> dict:
+        #a pickled logger goes to another process. The time contexts that are open
+        #here never exit there so the lines they hold back must not travel with it.
+        return {**self.__dict__, '_messages': []}
+
     def _level_message(self, message: Union[str,Exception]) -> str:
         indent = '  ' * self._level
         bullet = self._bullets.get(self._level,'~')
